@@ -14,17 +14,17 @@ import (
 
 // Frame is the parsed header of a tube frame (data and initiate frames share the first 4 bytes).
 type Frame struct {
-	Dir      int // 0: A->B, 1: B->A
-	Tube     byte
+	Dir                           int // 0: A->B, 1: B->A
+	Tube                          byte
 	REQ, RESP, REL, ACK, FIN, RTR bool
-	DataLen  int
-	AckNo    uint32
-	FrameNo  uint32
-	Len      int
-	Nth      int // n-th transmission (1-based) of this identity (dir, tube, kind, frameNo)
-	Seq      int // global sequence number of the write
-	At       time.Duration
-	Raw      []byte
+	DataLen                       int
+	AckNo                         uint32
+	FrameNo                       uint32
+	Len                           int
+	Nth                           int // n-th transmission (1-based) of this identity (dir, tube, kind, frameNo)
+	Seq                           int // global sequence number of the write
+	At                            time.Duration
+	Raw                           []byte
 }
 
 // Kind classifies a frame for fault keys: "req", "resp", "fin", "data", "ack".
@@ -44,9 +44,9 @@ func (f *Frame) Kind() string {
 
 // Action is a policy decision.
 type Action struct {
-	Drop  bool
-	Dups  int           // extra copies
-	Delay time.Duration // delivery delay of all copies
+	Drop     bool
+	Dups     int           // extra copies
+	Delay    time.Duration // delivery delay of all copies
 	DupDelay time.Duration // additional delay of the extra copies only (a late duplicate)
 }
 
@@ -55,16 +55,17 @@ type Policy func(f *Frame) Action
 
 // Net is the pair.
 type Net struct {
-	mu     sync.Mutex
-	A, B   *End
-	policy Policy
-	start  time.Time
-	seq    int
-	counts map[[4]uint32]int
-	Log    []Frame // every write, with the action applied recorded in Applied
-	Applied []Action
-	outage [2]time.Time // drop everything between these instants
-	KeepRaw bool
+	mu         sync.Mutex
+	A, B       *End
+	policy     Policy
+	start      time.Time
+	seq        int
+	counts     map[[4]uint32]int
+	Log        []Frame // every write, with the action applied recorded in Applied
+	Applied    []Action
+	outage     [2]time.Time // drop everything between these instants
+	KeepRaw    bool
+	writeErrAt time.Time // after this instant WriteMsg fails (zero: never)
 }
 
 // End is one endpoint.
@@ -96,6 +97,14 @@ func New(policy Policy) *Net {
 func (n *Net) SetPolicy(p Policy) {
 	n.mu.Lock()
 	n.policy = p
+	n.mu.Unlock()
+}
+
+// FailWritesAfter makes every WriteMsg on both ends return an error from d after now on (the socket reports
+// e.g. "connection refused"), while reads keep working.
+func (n *Net) FailWritesAfter(d time.Duration) {
+	n.mu.Lock()
+	n.writeErrAt = time.Now().Add(d)
 	n.mu.Unlock()
 }
 
@@ -150,6 +159,10 @@ func (e *End) WriteMsg(b []byte) error {
 	}
 	n := e.n
 	n.mu.Lock()
+	if !n.writeErrAt.IsZero() && time.Now().After(n.writeErrAt) {
+		n.mu.Unlock()
+		return errWrite
+	}
 	f := parse(e.dir, b)
 	n.seq++
 	f.Seq = n.seq
@@ -206,6 +219,8 @@ func (e *End) push(b []byte) {
 
 // Inject delivers raw bytes to this endpoint as if the peer had written them.
 func (e *End) Inject(b []byte) { e.push(append([]byte(nil), b...)) }
+
+var errWrite = errors.New("write: connection refused (injected)")
 
 type timeoutErr struct{}
 
